@@ -286,6 +286,14 @@ def gen_cases(rng, tier):
         for e in exprs1[:6]:
             env = [gen_operand(rng, (), s, False, False) for s in (3, None)]
             cases.append({'am': amb, 'full_shape': [3], 'env': env, 'expr': e, 'model': True})
+    # every unary operation of the wider alphabet on one operand that is masked as a whole by the single value True, by
+    # an array of True, partly, or not at all - under antimasks that select all, some or one of its elements
+    for op in NUM_UN:
+        for mk in (True, [True] * 4, [False, True, False, True], False):
+            for bits in ([True] * 4, [True, False, True, False], [False, True, False, False]):
+                env = [{'shape': [4], 'vals': [-2, 0, 1, 3], 'mask': mk, 'deriv': op in ('neg', 'abs', 'sin', 'sq'), 'float': True}]
+                cases.append({'am': {'shape': [4], 'bits': bits}, 'full_shape': [4], 'env': env,
+                              'expr': ['un', op, ['leaf', 0]], 'model': False})
     nrand = 3000 if tier == 'quick' else 20000
     for _ in range(nrand):
         n = rng.randrange(1, 6)
